@@ -163,6 +163,20 @@ def _call1(engine, clo, argv, wrap=None):
         if var is not None:
             out = Adt(ty, var, list(argv))
             return wrap(out) if wrap else out
+        # a named function passed as the callback (`.and_then(Table::lookup_opcode)`): the same model a direct call would get
+        ctx_ = getattr(engine, "_cur_call", None)
+        if ctx_ is not None:
+            st_, fr_ = ctx_
+            for rx, handler in list(engine.models) + list(sym.BUILTIN_MODELS):
+                if handler is not None and re.search(rx, clo.name):
+                    out = handler(engine, st_, fr_, clo.name, list(argv), None)
+                    if wrap is None:
+                        return out
+                    if isinstance(out, Fork):
+                        return Fork([(a[0], wrap(a[1])) + tuple(a[2:]) if not isinstance(a[1], (Panic, Inline)) else a for a in out.alts])
+                    if isinstance(out, (Inline, Panic)) or out.__class__.__name__ in ("FirstMatch",):
+                        raise Unsupported("callback %s: model result cannot be wrapped" % clo.name)
+                    return wrap(out)
         return Inline(engine.resolve_fn(clo.name), list(argv), wrap=wrap)
     fn = engine.resolve_fn(clo.name)
     first = clo
@@ -186,6 +200,7 @@ def _res_dispatch(engine, st, v, on_ok, on_err):
 
 
 def m_option_method(engine, st, fr, callee, args, ops):
+    engine._cur_call = (st, fr)
     meth = re.search(r"::(\w+)(::<.*>)?$", callee).group(1)
     v = args[0]
     if isinstance(v, Ref) and meth in ("is_some", "is_none", "as_ref", "as_mut", "copied", "cloned"):
@@ -257,6 +272,7 @@ def _cell(engine, st, clo):
 
 
 def m_result_method(engine, st, fr, callee, args, ops):
+    engine._cur_call = (st, fr)
     meth = re.search(r"::(\w+)(::<.*>)?$", callee).group(1)
     v = args[0]
     ok = lambda x: Adt("Result", "Ok", [x])
@@ -506,6 +522,40 @@ def m_vec_extend_from_slice(engine, st, fr, callee, args, ops):
     sr, lo, hi, items = view(engine, st, args[1])
     engine.write_at(st, r.root, list(r.path), Arr(v.items + tuple(items[lo:hi]), v.kind))
     return UNIT
+
+
+def m_vec_extend(engine, st, fr, callee, args, ops):
+    """`Vec::extend(iterable)`: Option (0 or 1 element), arrays / vectors / slices, and the iterator adapters above"""
+    r = args[0]
+    v = _vec(engine, st, r)
+    src = args[1]
+    x = _deref(engine, st, src) if isinstance(src, Ref) else src
+    if isinstance(x, Adt) and x.ty == "Option":
+        def put(items):
+            return sym._SetPlace(r, Arr(v.items + tuple(items), v.kind))
+        alts = []
+        for c, n in sym._discr_fork(engine, st, x, ["None", "Some"]):
+            alts.append((c, put([sym._payload(engine, x, "Some")]) if n == "Some" else put([])))
+        return alts[0][1] if len(alts) == 1 and alts[0][0] is True else Fork(alts)
+    if isinstance(x, Arr):
+        items = list(x.items)
+    else:
+        items = _items(engine, st, src)
+        # `extend(&[T])` / `extend(iter())` of Copy items yields references: Vec<T: Copy> implements Extend<&T> by copying
+        if re.search(r"Extend<&", callee):
+            items = [_deref(engine, st, i) for i in items]
+    engine.write_at(st, r.root, list(r.path), Arr(v.items + tuple(items), v.kind))
+    return UNIT
+
+
+def m_find_map(engine, st, fr, callee, args, ops):
+    for x in _items(engine, st, args[0]):
+        out = _apply(engine, st, args[1], [x])
+        if isinstance(out, Adt) and out.variant == "Some":
+            return out
+        if not (isinstance(out, Adt) and out.variant == "None"):
+            raise Unsupported("find_map with a symbolic Option")
+    return none()
 
 
 def m_vec_truncate(engine, st, fr, callee, args, ops):
@@ -906,6 +956,7 @@ MODELS = [
     (r"^(core::slice::<impl \[.*\]>|slice::<impl \[.*\]>)::(sort|sort_unstable)$", m_seq_sort),
     (r"^core::slice::<impl \[.*\]>::binary_search$", m_seq_binary_search),
     (r"^Vec::<.*>::extend_from_slice$", m_vec_extend_from_slice),
+    (r"^<Vec<.*> as Extend<.*>>::extend::<", m_vec_extend),
     (r"^Vec::<.*>::truncate$", m_vec_truncate),
     (r"^Vec::<.*>::clear$", m_vec_clear),
     (r"^Vec::<.*>::(remove|swap_remove)$", m_vec_remove),
@@ -927,6 +978,7 @@ MODELS = [
     (r"^<" + ITER + r" as Iterator>::(take_while|skip_while)::<", m_take_skip_while),
     (r"^<" + ITER + r" as Iterator>::find::<", m_find),
     (r"^<" + ITER + r" as Iterator>::position::<", m_position),
+    (r"^<" + ITER + r" as Iterator>::find_map::<", m_find_map),
     (r"^<" + ITER + r" as Iterator>::(any|all)::<", m_any_all),
     (r"^<" + ITER + r" as Iterator>::count$", m_count),
     (r"^<" + ITER + r" as Iterator>::last$", m_last),
